@@ -222,6 +222,24 @@ def run_tlc(module_path, cfg_path, metadir, env=None, workers=1, timeout=1800, x
     return res
 
 
+def run_apalache(module_path, args, outdir, timeout=3000):
+    """apalache-mc check ...; returns dict(rc, out, outcome, wall).  outcome: NoError | Error | other"""
+    os.makedirs(outdir, exist_ok=True)
+    cmd = ["apalache-mc", "check", "--out-dir=" + outdir] + list(args) + [os.path.basename(module_path)]
+    e = dict(os.environ)
+    e.pop("JAVA_TOOL_OPTIONS", None)
+    t0 = time.time()
+    try:
+        p = subprocess.run(cmd, cwd=os.path.dirname(module_path), env=e, stdout=subprocess.PIPE,
+                           stderr=subprocess.STDOUT, text=True, timeout=timeout)
+        out, rc = p.stdout, p.returncode
+    except subprocess.TimeoutExpired as ex:
+        out, rc = "timeout", -9
+    m = re.search(r"The outcome is: (\w+)", out)
+    shutil.rmtree(outdir, ignore_errors=True)
+    return {"rc": rc, "out": out, "outcome": m.group(1) if m else "none", "wall": time.time() - t0}
+
+
 def extract_tuples(out, tag):
     """PrintT output of <<"TAG", ...>>, possibly pretty-printed over several lines, as one-line strings"""
     res, cur, depth = [], None, 0
